@@ -4,6 +4,8 @@
 
 extern "C" {
 void aq_setup(unsigned depth, unsigned msg_len, unsigned slack);
+void aq_setup4(unsigned depth, unsigned msg_len, unsigned slack, unsigned mis);
+int aq_lead_ok(int i);
 long aq_claim(int i);
 void aq_send(int i, long o);
 long aq_receive(int i);
@@ -46,7 +48,10 @@ void h_run(Ctx &c)
 		}
 		slack = t.flip() ? t.choose(msg_len) : 0;
 	}
-	aq_setup(depth, msg_len, slack);
+	unsigned mis = (!t.enumerating && c.feat(2) && t.weighted({ 3, 1 }) == 1) ? 1 + t.choose(3) : 0;
+	if (mis)
+		c.cls("caller-memory-not-4-byte-aligned");
+	aq_setup4(depth, msg_len, slack, mis);
 	long maxops = c.param("maxops", 150);
 	long nops = t.enumerating ? c.param("ops", 6) : t.range(0, maxops);
 	long precycle = c.param("precycle", t.enumerating ? 0 : -1);
@@ -197,6 +202,8 @@ void h_run(Ctx &c)
 	for (int qi = 0; qi < 2 && !c.failed; qi++)
 		for (unsigned i = 0; i < slack && !c.failed; i++)
 			CHECK(c, aq_storage(qi)[(size_t)depth * msg_len + i] == 0xEE, "trailing slack byte %u was modified", i);
+	for (int qi = 0; qi < 2 && !c.failed; qi++)
+		CHECK(c, aq_lead_ok(qi), "bytes in front of the caller's memory were modified (queue %d)", qi);
 	if (wrapped_with_two)
 		c.cls("wrapped-with-two-outstanding");
 	if (depth == 1)
